@@ -296,6 +296,7 @@ class Experiment:
         """
 
         for i, schedule in enumerate(schedules):
+            j, item = None, None
             try:
                 for j, item in enumerate(schedule):
                     self._validate_schedule_item(item, objdict=objdict)
